@@ -35,6 +35,32 @@ def is_pending(p):
     return r is not None and r[0] == "agg" and r[3] == "Pending"
 
 
+def moved_into_mutex(f, b, l, depth):
+    """local `l` of body `b` is moved into Mutex::new(..) - there, or by a crate-private constructor helper it is handed to whole
+    (a `SharedState::new(state)` wrapper that does nothing else with it)"""
+    for bb2, t, fn in b.calls():
+        if not fn:
+            continue
+        for i, a in enumerate(t["args"]):
+            if a.get("k") == "move" and a["place"]["l"] == l and not a["place"]["p"]:
+                if fn["name"] == "new" and "Mutex" in fn["path"]:
+                    return True
+                r = fn.get("resolved") or {}
+                cb = f.body(r.get("path") if r.get("kind") == "item" else fn["path"]) if fn.get("local") and not fn.get("trait") else None
+                sig = f.fns.get(cb.path) if cb is not None else None
+                if cb is not None and depth < 2 and sig is not None and not sig.get("vis", "").startswith("Public") and \
+                        not cb.j.get("coroutine_kind") and moved_into_mutex(f, cb, i + 1, depth + 1):
+                    return True
+    # a plain move into another local first (`let state = inner;`)
+    for blk in b.blocks:
+        for st in blk["stmts"]:
+            if st["k"] == "assign" and not st["place"]["p"] and st["rv"]["k"] == "use" and st["rv"]["op"].get("k") == "move" and \
+                    st["rv"]["op"]["place"]["l"] == l and not st["rv"]["op"]["place"]["p"] and st["place"]["l"] != l and depth < 4:
+                if moved_into_mutex(f, b, st["place"]["l"], depth + 1):
+                    return True
+    return False
+
+
 def run(ctx, f, rep):
     ipath, iadt, names = fq.inner_adt(f)
     if not ipath:
@@ -182,11 +208,7 @@ def run(ctx, f, rep):
                 if st["k"] == "assign" and st["rv"]["k"] == "aggregate" and (st["rv"].get("adt") or "") == ipath:
                     built += 1
                     l = st["place"]["l"] if not st["place"]["p"] else None
-                    into_mutex = False
-                    if l is not None:
-                        for bb2, t, fn in b.calls():
-                            if fn and fn["name"] == "new" and "Mutex" in fn["path"] and any(a.get("k") == "move" and a["place"]["l"] == l and not a["place"]["p"] for a in t["args"]):
-                                into_mutex = True
+                    into_mutex = l is not None and moved_into_mutex(f, b, l, 0)
                     rep.check(into_mutex, "R06.2", "R06.2|state-built-into-mutex|%s" % b.path,
                               "the queue state is built straight into Mutex::new(..) in %s: no unlocked `&mut` to it can exist" % b.path, b.loc(bb))
     rep.floor("R06.2", "construction sites of the queue state", built, 1)
